@@ -366,6 +366,62 @@ fn prog_tokens(w: usize, prog: &[Op]) -> String {
     format!("{} {}", toks.len(), toks.join(" "))
 }
 
+// ---------------------------------------------------------------- (c) session streams of provider runs
+/// Session streams are numbered by the run itself while it threads one counter through the provider
+/// read loop, the tool loop and the rejection of barred tools. Each case is one run against a
+/// scripted provider: 1-4 responses with 0-3 function calls each, under a random tool choice (so
+/// some calls are executed and some refused), as a plain session or as the answer to a later
+/// message of a thread; afterwards the whole log is checked stream by stream.
+fn provider_loop_cases(rep: &mut Report, rng: &mut Rng, n: u64) {
+    use crate::c16::{build_sse, gen_response, run_e2e, run_e2e_thread, E2eConfig, TOOLS};
+    use crate::provider::Resp;
+    for case_no in 0..n {
+        let prior = if rng.chance(1, 4) { 1 } else { 0 };
+        let tool_choice = if prior > 0 {
+            json!("auto")
+        } else {
+            match rng.below(6) {
+                0 | 1 => json!("auto"),
+                2 => json!("none"),
+                3 => json!({"type": "function", "name": *rng.pick(&["ls", "write", "grep"])}),
+                4 => json!({"type": "allowed_tools", "mode": "auto", "tools": [{"type": "function", "name": "ls"}]}),
+                _ => json!({"type": "allowed_tools", "mode": "none", "tools": [{"type": "function", "name": "write"}]}),
+            }
+        };
+        let nresp = rng.range(1, 4);
+        let mut serial = 0u64;
+        let mut calls = 0usize;
+        let script: Vec<Resp> = (0..nresp)
+            .map(|r| {
+                let ncalls = if r + 1 == nresp && rng.chance(1, 2) { 0 } else { rng.below(4) as usize };
+                calls += ncalls;
+                let events = gen_response(rng, &mut serial, ncalls, false, TOOLS);
+                let body = build_sse(rng, &events, Some(&format!("resp_{r}")), true, &[]);
+                Resp::Sse { body, chunk: *rng.pick(&[0usize, 7, 64]), cut_at: None }
+            })
+            .collect();
+        let cfg = E2eConfig { stateless: rng.chance(1, 2), followup: None, tool_choice: tool_choice.clone(), parallel: rng.chance(1, 2) };
+        let res = if prior > 0 { run_e2e_thread(&cfg, prior, script, "hello") } else { run_e2e(&cfg, script, "hello") };
+        let scratch = Scratch::new("c01p");
+        let path = scratch.path().join("events.jsonl");
+        std::fs::write(&path, &res.log).unwrap();
+        rep.evaluations += 1;
+        rep.traces_validated += 1;
+        rep.count("provider_loop_cases");
+        let rejected = res.frames.iter().filter(|f| f["type"] == "tool_started" && f["tool_id"].as_str().unwrap_or("").starts_with("tool_denied_")).count();
+        let executed = res.frames.iter().filter(|f| f["type"] == "tool_started").count() - rejected;
+        rep.count_n("provider_loop_tools_executed", executed as u64);
+        rep.count_n("provider_loop_tools_refused", rejected as u64);
+        if executed + rejected >= 2 {
+            rep.nontrivial_case(&format!("p {case_no} {tool_choice} {calls} {executed} {rejected}"));
+        }
+        if let Err(e) = check_log(&path) {
+            let sig = if rejected > 0 { "C01|session-stream-numbering|provider-run-with-refused-tool" } else { "C01|session-stream-numbering|provider-run" };
+            rep.oracle_failure(sig, &format!("after one provider run: {e}"), json!({"case": case_no, "tool_choice": tool_choice, "thread_turns_before": prior, "function_calls_scripted": calls, "tools_executed": executed, "tools_refused": rejected, "session_frames": res.frames.iter().map(|f| format!("{}@{}", f["type"].as_str().unwrap_or("?"), f["seq"])).collect::<Vec<_>>()}));
+        }
+    }
+}
+
 pub fn run(opts: &Opts) -> Report {
     let mut rep = Report::new(
         "C01",
@@ -386,6 +442,9 @@ pub fn run(opts: &Opts) -> Report {
         cold_race_case(&mut rep, &mut rng);
     }
     eprintln!("c01: cold race done at {:?}", t_start.elapsed());
+    let n_loop = if opts.thorough { 600 } else { 60 } * opts.scale;
+    provider_loop_cases(&mut rep, &mut rng, n_loop);
+    eprintln!("c01: provider loops done at {:?}", t_start.elapsed());
     // corpus: the branch race of Rip.Cex.C01.branch_race
     let mut cases: Vec<(Vec<Vec<Op>>, Vec<usize>)> = vec![(vec![vec![Op::Create], vec![Op::AppendForeign(0, 0)]], vec![0, 0, 0, 0, 1, 1, 1, 1, 1, 1, 0, 0, 0])];
     let n_sched = if opts.thorough { 600 } else { 60 } * opts.scale;
